@@ -27,6 +27,7 @@ type Scope_ struct {
 	Kinds       []string `json:"kinds"`        // obligation kinds claimed (empty = all generated)
 	ExtraKinds  []string `json:"extra_kinds"`  // additional kinds to generate (e.g. nil)
 	Lemmas      []string `json:"lemmas"`       // lemma names (regexps)
+	ThoroughLemmas []string `json:"thorough_lemmas"` // lemmas verified in the thorough tier only (expensive end-to-end compositions)
 	MustHaveContract []string `json:"must_have_contract"` // functions that must carry a contract with at least one ensures
 	QuickTimeout    [2]int `json:"quick_timeout"`
 	ThoroughTimeout [2]int `json:"thorough_timeout"`
@@ -215,7 +216,11 @@ func cmdCheck(args []string) {
 	cfg := solveCfg{quickS: tmo[0], fullS: tmo[1], workers: 16}
 
 	var lems []*Lemma
-	for _, lp := range sc.Lemmas {
+	lemPats := sc.Lemmas
+	if *tier == "thorough" {
+		lemPats = append(append([]string{}, lemPats...), sc.ThoroughLemmas...)
+	}
+	for _, lp := range lemPats {
 		re := regexp.MustCompile(lp)
 		for _, lm := range e.lemmas {
 			if re.MatchString(lm.Name) {
